@@ -109,8 +109,16 @@ func runC20Kit(c bson.D, x *Ctx) error {
 	}
 	nd := func() *bson.D { d := freshD(doc); return &d }
 	calls := []func() callOutcome{
-		func() callOutcome { return guarded("bsonkit.Compare", func() error { bsonkit.Compare(fresh(v1), fresh(v2)); bsonkit.Compare(freshD(doc), freshD(doc2)); return nil }) },
-		func() callOutcome { return guarded("bsonkit.Get", func() error { bsonkit.Get(nd(), path); return nil }) },
+		func() callOutcome {
+			return guarded("bsonkit.Compare", func() error {
+				bsonkit.Compare(fresh(v1), fresh(v2))
+				bsonkit.Compare(freshD(doc), freshD(doc2))
+				return nil
+			})
+		},
+		func() callOutcome {
+			return guarded("bsonkit.Get", func() error { bsonkit.Get(nd(), path); return nil })
+		},
 		func() callOutcome {
 			return guarded("bsonkit.All", func() error {
 				bsonkit.All(nd(), path, true, true)
@@ -120,12 +128,24 @@ func runC20Kit(c bson.D, x *Ctx) error {
 				return nil
 			})
 		},
-		func() callOutcome { return guarded("bsonkit.Put", func() error { _, err := bsonkit.Put(nd(), path, fresh(v1), upsert); return err }) },
-		func() callOutcome { return guarded("bsonkit.Unset", func() error { bsonkit.Unset(nd(), path); return nil }) },
-		func() callOutcome { return guarded("bsonkit.Increment", func() error { _, err := bsonkit.Increment(nd(), path, fresh(v1)); return err }) },
-		func() callOutcome { return guarded("bsonkit.Multiply", func() error { _, err := bsonkit.Multiply(nd(), path, fresh(v1)); return err }) },
-		func() callOutcome { return guarded("bsonkit.Push", func() error { _, err := bsonkit.Push(nd(), path, fresh(v1)); return err }) },
-		func() callOutcome { return guarded("bsonkit.Pop", func() error { _, err := bsonkit.Pop(nd(), path, upsert); return err }) },
+		func() callOutcome {
+			return guarded("bsonkit.Put", func() error { _, err := bsonkit.Put(nd(), path, fresh(v1), upsert); return err })
+		},
+		func() callOutcome {
+			return guarded("bsonkit.Unset", func() error { bsonkit.Unset(nd(), path); return nil })
+		},
+		func() callOutcome {
+			return guarded("bsonkit.Increment", func() error { _, err := bsonkit.Increment(nd(), path, fresh(v1)); return err })
+		},
+		func() callOutcome {
+			return guarded("bsonkit.Multiply", func() error { _, err := bsonkit.Multiply(nd(), path, fresh(v1)); return err })
+		},
+		func() callOutcome {
+			return guarded("bsonkit.Push", func() error { _, err := bsonkit.Push(nd(), path, fresh(v1)); return err })
+		},
+		func() callOutcome {
+			return guarded("bsonkit.Pop", func() error { _, err := bsonkit.Pop(nd(), path, upsert); return err })
+		},
 		func() callOutcome {
 			return guarded("bsonkit.Add/Mul/Mod", func() error {
 				bsonkit.Add(fresh(v1), fresh(v2))
@@ -325,7 +345,10 @@ func runC20Driver(c bson.D, x *Ctx) error {
 			var out []bson.M
 			return cur.All(ctx, &out)
 		})
-		run("FindOne", func() error { var d bson.D; return coll.FindOne(ctx, freshD(filter), options.FindOne().SetProjection(freshD(proj))).Decode(&d) })
+		run("FindOne", func() error {
+			var d bson.D
+			return coll.FindOne(ctx, freshD(filter), options.FindOne().SetProjection(freshD(proj))).Decode(&d)
+		})
 		run("CountDocuments", func() error { _, err := coll.CountDocuments(ctx, freshD(filter)); return err })
 		if field != "" {
 			run("Distinct", func() error { _, err := coll.Distinct(ctx, field, freshD(filter)); return err })
@@ -334,9 +357,18 @@ func runC20Driver(c bson.D, x *Ctx) error {
 			_, err := coll.Indexes().CreateOne(ctx, mongo.IndexModel{Keys: freshD(srt), Options: options.Index().SetUnique(upsert).SetPartialFilterExpression(freshD(partial))})
 			return err
 		})
-		run("UpdateMany", func() error { _, err := coll.UpdateMany(ctx, freshD(filter), freshD(update), options.Update().SetUpsert(upsert).SetArrayFilters(afs)); return err })
-		run("UpdateOne({})", func() error { _, err := coll.UpdateOne(ctx, bson.D{}, freshD(update), options.Update().SetArrayFilters(afs)); return err })
-		run("ReplaceOne", func() error { _, err := coll.ReplaceOne(ctx, freshD(filter), freshD(repl), options.Replace().SetUpsert(upsert)); return err })
+		run("UpdateMany", func() error {
+			_, err := coll.UpdateMany(ctx, freshD(filter), freshD(update), options.Update().SetUpsert(upsert).SetArrayFilters(afs))
+			return err
+		})
+		run("UpdateOne({})", func() error {
+			_, err := coll.UpdateOne(ctx, bson.D{}, freshD(update), options.Update().SetArrayFilters(afs))
+			return err
+		})
+		run("ReplaceOne", func() error {
+			_, err := coll.ReplaceOne(ctx, freshD(filter), freshD(repl), options.Replace().SetUpsert(upsert))
+			return err
+		})
 		run("ReplaceOne({})", func() error { _, err := coll.ReplaceOne(ctx, bson.D{}, freshD(repl)); return err })
 		run("FindOneAndUpdate", func() error {
 			var d bson.D
